@@ -166,8 +166,29 @@ def main():
         fnode = onnx.helper.make_node("Constant", [], ["c"])
         fnode.attribute.append(att)
         fproto = onnx.helper.make_function("d", "F", [], ["c"], [fnode], [onnx.helper.make_opsetid("", 18)])
-        g = onnx.helper.make_graph([onnx.helper.make_node("Identity", ["w"], ["y"])], "g", [],
-                                   [onnx.helper.make_tensor_value_info("y", 1, [4])], initializer=[tp])
+        def ext(name):
+            t2 = onnx.TensorProto()
+            t2.CopyFrom(tp)
+            t2.name = name
+            return t2
+
+        def const(name, out):
+            n = onnx.helper.make_node("Constant", [], [out], name=name)
+            n.attribute.append(onnx.helper.make_attribute("value", ext(name + "_t")))
+            return n
+        # every carrier: main-graph node attribute (TENSOR and TENSORS), subgraph initializer / node attribute at depth 1 and 2
+        deep = onnx.helper.make_graph([const("deep_const", "dc"), onnx.helper.make_node("Add", ["dc", "dw"], ["d_out"])], "deep", [],
+                                      [onnx.helper.make_tensor_value_info("d_out", 1, [4])], initializer=[ext("dw")])
+        inner_if = onnx.helper.make_node("If", ["cnd"], ["i_out"], name="inner_if", then_branch=deep, else_branch=deep)
+        branch = onnx.helper.make_graph([const("branch_const", "bc"), inner_if, onnx.helper.make_node("Add", ["bc", "bw"], ["b0"]),
+                                         onnx.helper.make_node("Add", ["b0", "i_out"], ["b_out"])], "branch", [],
+                                        [onnx.helper.make_tensor_value_info("b_out", 1, [4])], initializer=[ext("bw")])
+        multi = onnx.helper.make_node("Custom", [], ["m_out"], name="multi", domain="d")
+        multi.attribute.append(onnx.helper.make_attribute("tensors", [ext("ts0"), ext("ts1")]))
+        cnd = onnx.helper.make_tensor("cnd", onnx.TensorProto.BOOL, [], [True])
+        g = onnx.helper.make_graph([onnx.helper.make_node("Identity", ["w"], ["y"]), const("main_const", "mc"), multi,
+                                    onnx.helper.make_node("If", ["cnd"], ["r"], name="outer_if", then_branch=branch, else_branch=branch)], "g", [],
+                                   [onnx.helper.make_tensor_value_info("y", 1, [4])], initializer=[tp, cnd])
         mp = onnx.helper.make_model(g, functions=[fproto], opset_imports=[onnx.helper.make_opsetid("", 18), onnx.helper.make_opsetid("d", 1)])
         onnx.save(mp, os.path.join(base, "model.onnx"))
         for sname, spath, cwd in (("bare", "model.onnx", base), ("./", "./model.onnx", base), ("abs", os.path.join(base, "model.onnx"), None),
@@ -176,12 +197,28 @@ def main():
             evaluations += 1
             distinct.add(("load", sname))
             m = ir.load(spath)
-            tensors = [m.graph.initializers["w"].const_value]
-            for f in m.functions.values():
-                for n in f:
+            tensors = []
+
+            def collect(gr):
+                for v in gr.initializers.values():
+                    if v.const_value is not None:
+                        tensors.append(v.const_value)
+                for n in gr:
                     for at in n.attributes.values():
                         if at.type == ir.AttributeType.TENSOR:
                             tensors.append(at.value)
+                        elif at.type == ir.AttributeType.TENSORS:
+                            tensors.extend(at.value)
+                        elif at.type == ir.AttributeType.GRAPH:
+                            collect(at.value)
+                        elif at.type == ir.AttributeType.GRAPHS:
+                            for sg in at.value:
+                                collect(sg)
+            collect(m.graph)
+            for f in m.functions.values():
+                collect(f.graph if hasattr(f, "graph") else f._graph)
+            if sum(isinstance(t, ir.ExternalTensor) for t in tensors) < 9:
+                failures.append(f"load({sname}): the harness found only {len(tensors)} tensors (expected external tensors at 9+ positions)")
             for t in tensors:
                 bd = os.fspath(t.base_dir) if isinstance(t, ir.ExternalTensor) else None
                 if isinstance(t, ir.ExternalTensor):
